@@ -227,16 +227,99 @@ Definition return_addrs (specs : list epspec) (binding : string) : list string :
 Definition request_acs_url (specs : list epspec) (binding : string) : option string :=
   match return_addrs specs binding with [] => None | u :: _ => Some u end.
 
+(* ---------------------------------------------------------------------------------------------
+   A Response that delivers SEVERAL assertions, each of them in the clear (<Assertion>), encrypted
+   (<EncryptedAssertion>), or inside the <Advice> of another assertion, in any document order.
+   [message] above is the usual special case: one assertion, in the clear.
+
+   AuthnResponse.parse_assertion, as coded: the "saml2int" count test lets a Response through when
+   it has exactly one plain OR exactly one encrypted top-level assertion (so 1+k and k+1 mixtures
+   pass); every plain assertion goes through _assertion (condition_ok, then get_subject) in document
+   order, then every decrypted one does; the first failure ends everything with an exception.
+   When nothing failed, identity is drawn from ALL delivered assertions: get_identity merges the
+   attribute statements of every top-level assertion AND of every assertion found in the <Advice>
+   of one (`for tmp_assertion in _assertion.advice.assertion: ... ava.update(...)`), name_id is the
+   one of the assertion processed last, .assertion / session_info() are the first decrypted (else
+   the first plain) one.  An assertion inside an <Advice> is never handed to _assertion; since
+   913771bd (finding C04-F2 repaired) get_identity refuses the Response (VerificationError) when the
+   Conditions of an <Advice> assertion are present and not satisfied by for_me.  Before that commit
+   nothing read them: [accept_r_v0] / [drawn_from_v0] keep that behaviour. *)
+Inductive travel :=
+| Plain                              (* <Assertion> child of the Response *)
+| Encrypted                          (* <EncryptedAssertion> child of the Response *)
+| Advised.                           (* <Assertion> inside the <Advice> of the top-level assertion before it *)
+
+Record assertion := {
+  a_how : travel;
+  a_conds : option conditions;       (* its <Conditions> *)
+  a_confs : list confirmation        (* the SubjectConfirmation elements of its Subject *)
+}.
+
+Record response := {
+  r_me : string;
+  r_specs : list epspec;
+  r_binding : string;
+  r_dest : option string;
+  r_conv : option (option string);
+  r_assertions : list assertion      (* in document order *)
+}.
+
+Definition is_plain (a : assertion) : bool := match a_how a with Plain => true | _ => false end.
+Definition a_enc (a : assertion) : bool := match a_how a with Encrypted => true | _ => false end.
+Definition is_top (a : assertion) : bool := match a_how a with Advised => false | _ => true end.
+Definition n_plain (l : list assertion) : nat := length (filter is_plain l).
+Definition n_enc (l : list assertion) : nat := length (filter a_enc l).
+
+(* `if n_assertions != 1 and n_assertions_enc != 1 and self.assertion is None: raise InvalidAssertion` *)
+Definition count_ok (l : list assertion) : bool := Nat.eqb (n_plain l) 1 || Nat.eqb (n_enc l) 1.
+
+(* the order in which parse_assertion hands the assertions to _assertion (advised ones: never) *)
+Definition processing_order (l : list assertion) : list assertion := filter is_plain l ++ filter a_enc l.
+
+(* AuthnResponse._assertion on one assertion (signature, issuer, AuthnStatement in order) *)
+Definition assertion_ok (me : string) (conv : option (option string)) (addrs : list string) (a : assertion) : bool :=
+  condition_ok (a_conds a) me && get_subject conv addrs (a_confs a).
+
+(* before 913771bd: the assertions inside an <Advice> are not looked at *)
+Definition accept_r_v0 (x : response) : bool :=
+  let addrs := endpoint (r_specs x) (r_binding x) in
+  dest_ok (r_binding x) (r_dest x) addrs
+  && count_ok (r_assertions x)
+  && forallb (assertion_ok (r_me x) (r_conv x) addrs) (processing_order (r_assertions x)).
+Definition drawn_from_v0 (x : response) : list bool := map (fun _ => accept_r_v0 x) (r_assertions x).
+
+(* get_identity: `if tmp_assertion.conditions and not for_me(tmp_assertion.conditions, self.entity_id): raise` *)
+Definition advice_ok (me : string) (a : assertion) : bool := is_top a || condition_ok (a_conds a) me.
+
+(* the code as it is now *)
+Definition accept_r (x : response) : bool :=
+  accept_r_v0 x && forallb (advice_ok (r_me x)) (r_assertions x).
+
+(* per delivered assertion (document order): is identity drawn from it? *)
+Definition drawn_from (x : response) : list bool := map (fun _ => accept_r x) (r_assertions x).
+
+(* the Response as it would read were [a] the only assertion in it *)
+Definition msg_of (x : response) (a : assertion) : message :=
+  {| m_me := r_me x; m_specs := r_specs x; m_binding := r_binding x; m_conds := a_conds a;
+     m_dest := r_dest x; m_conv := r_conv x; m_confs := a_confs a |}.
+
+(* the usual Response: one assertion, in the clear *)
+Definition resp_of (x : message) : response :=
+  {| r_me := m_me x; r_specs := m_specs x; r_binding := m_binding x; r_dest := m_dest x; r_conv := m_conv x;
+     r_assertions := [{| a_how := Plain; a_conds := m_conds x; a_confs := m_confs x |}] |}.
+
 (* one call on one provider object; the object's configuration travels with the call
    (m_me/m_specs of a [message]; the configured endpoint list of the service asked for otherwise) *)
 Inductive op :=
 | OParse (x : message)                                (* parse_authn_request_response *)
+| OResp (x : response)                                (* parse_authn_request_response, Response with a LIST of assertions *)
 | OUrls (specs : list epspec) (binding : string)      (* Base.service_urls(binding) *)
 | OEndp (specs : list epspec) (binding : string)      (* Config.endpoint(service, binding, "sp"); specs = list configured for that service *)
 | OAcs (specs : list epspec) (binding : string).      (* create_authn_request(.., binding=binding): the ACS URL put into the request *)
 
 Inductive out :=
 | RId (b : bool)
+| RFrom (l : list bool)                               (* per delivered assertion: identity drawn from it *)
 | RUrls (o : option (list string))
 | REndp (l : list string)
 | RAcs (o : option string).
@@ -244,9 +327,18 @@ Inductive out :=
 Definition step (o : op) : out :=
   match o with
   | OParse x => RId (accept x)
+  | OResp x => RFrom (drawn_from x)
   | OUrls specs b => RUrls (service_urls specs b)
   | OEndp specs b => REndp (endpoint specs b)
   | OAcs specs b => RAcs (request_acs_url specs b)
   end.
 
 Definition run_ops (l : list op) : list out := map step l.
+
+(* the call sequences of the code before 913771bd (C04-F2): only the Responses with several assertions differ *)
+Definition step_v0 (o : op) : out :=
+  match o with
+  | OResp x => RFrom (drawn_from_v0 x)
+  | _ => step o
+  end.
+Definition run_ops_v0 (l : list op) : list out := map step_v0 l.
